@@ -373,22 +373,11 @@ fn judge(wl: &Workload, r: &SimResult) -> Option<(String, String)> {
     None
 }
 
+/// A compilation was cancelled iff some handler got past the hook in front of `retrigger_compilation.store(true)`
+/// (it only goes there when it saw `is_compiling`). Counting abort points does not work: a compilation that
+/// reuses the cached programs also passes very few of them.
 fn cancelled_compiles(r: &SimResult) -> usize {
-    let mut aborts = 0;
-    let mut count = 0;
-    for (_, site) in &r.out.worker_trace {
-        match *site {
-            "worker.store_compiling_true" => count = 0,
-            "core.check_should_abort" => count += 1,
-            "worker.store_compiling_false" => {
-                if count > 0 && count < 4 {
-                    aborts += 1;
-                }
-            }
-            _ => {}
-        }
-    }
-    aborts
+    r.out.steps.iter().filter(|st| st.choice == crate::sched::Choice::C && st.site == "send.store_retrigger_true").count()
 }
 
 fn last_edited_doc(wl: &Workload) -> Option<usize> {
